@@ -495,4 +495,224 @@ theorem timerA_spOK (input : Str) (env : Env) (lt : Loc (PTimer α))
   intro _
   sp_ok
 
+/-! ### step and text items -/
+
+theorem inStepTextStep_spOK (input : Str) (env : Env) (t : Text) (items : List Item) (ht : TextOK 0 input t) :
+    SpOK input (inStepTextStep (α := α) env t items) := by
+  unfold inStepTextStep
+  sp_ok
+  all_goals first
+    | exact LabelsOK.one ht.1
+    | exact SpOK.modify _ (fun s h => h.congr rfl rfl rfl rfl rfl)
+
+theorem inStepText_spOK (input : Str) (env : Env) (t : Text) (ht : TextOK 0 input t) :
+    SpOK input (inStepText (α := α) env t) := by
+  have h1 : ∀ items, SpOK input (inStepTextStep (α := α) env t items) := fun items => inStepTextStep_spOK input env t items ht
+  unfold inStepText
+  sp_ok
+  all_goals first
+    | exact h1 _
+    | exact SpOK.modify _ (fun s h => h.congr rfl rfl rfl rfl rfl)
+
+theorem pushItem_spOK (input : Str) (it : Item) : SpOK input (pushItem (α := α) it) := by
+  unfold pushItem
+  sp_ok
+  all_goals
+    have h0 := ‹ColOK input _›
+    exact SpOK.set _ (h0.congr rfl rfl rfl rfl rfl)
+
+theorem inStepComponent_spOK (input : Str) (env : Env) (ev : Ev α) (hev : EvSpansOK 0 input ev) :
+    SpOK input (inStepComponent env input ev) := by
+  have hp : ∀ it, SpOK input (pushItem (α := α) it) := fun it => pushItem_spOK input it
+  unfold inStepComponent
+  cases ev with
+  | ingredient i => exact SpOK.bind (ingredientA_spOK input env i hev) (fun _ => hp _)
+  | cookware c => exact SpOK.bind (cookwareA_spOK input env c hev) (fun _ => hp _)
+  | timer t => exact SpOK.bind (timerA_spOK input env t hev) (fun _ => hp _)
+  | _ => exact SpOK.apanic _
+
+theorem inTextComponent_spOK (input : Str) (ev : Ev α) (buf : Str) (hev : EvSpansOK 0 input ev) :
+    SpOK input (inTextComponent input ev buf) := by
+  have hm : ∀ f : Col α → Col α, (∀ s, (f s).diags = s.diags ∧ (f s).locIngr = s.locIngr ∧ (f s).locCw = s.locCw ∧
+      (f s).metaLocs = s.metaLocs ∧ (f s).oldStyleUsed = s.oldStyleUsed) → SpOK input (modify f : A α PUnit) :=
+    fun f hf => SpOK.modify _ (fun s h => h.congr (hf s).1 (hf s).2.1 (hf s).2.2.1 (hf s).2.2.2.1 (hf s).2.2.2.2)
+  unfold inTextComponent
+  cases ev <;> sp_ok
+  all_goals first
+    | exact LabelsOK.one hev.1
+    | exact LabelsOK.one (spansA_zero input)
+    | exact hm _ (fun s => ⟨rfl, rfl, rfl, rfl, rfl⟩)
+
+theorem inBlockComponent_spOK (input : Str) (env : Env) (ev : Ev α) (hev : EvSpansOK 0 input ev) :
+    SpOK input (inBlockComponent env input ev) := by
+  have h1 := inStepComponent_spOK input env ev hev
+  have h2 : ∀ buf, SpOK input (inTextComponent input ev buf) := fun buf => inTextComponent_spOK input ev buf hev
+  unfold inBlockComponent
+  sp_ok
+  all_goals exact h2 _
+
+/-! ### `>>` metadata -/
+
+theorem spansA_insertionSort_foldl (l acc : List Span) (y : Span)
+    (h : y ∈ l.foldl (fun acc x =>
+      let lt (a b : Span) : Bool := a.start < b.start || (a.start == b.start && a.stop < b.stop)
+      (acc.takeWhile (fun y => !lt x y)) ++ [x] ++ (acc.dropWhile (fun y => !lt x y))) acc) : y ∈ acc ∨ y ∈ l := by
+  induction l generalizing acc with
+  | nil => exact Or.inl h
+  | cons x xs ih =>
+    simp only [List.foldl_cons] at h
+    rcases ih _ h with h1 | h1
+    · simp only [List.append_assoc, List.mem_append, List.mem_cons, List.not_mem_nil, or_false] at h1
+      rcases h1 with h1 | h1 | h1
+      · exact Or.inl ((List.takeWhile_sublist _).subset h1)
+      · exact Or.inr (by rw [h1]; exact List.mem_cons_self)
+      · exact Or.inl ((List.dropWhile_sublist _).subset h1)
+    · exact Or.inr (List.mem_cons_of_mem _ h1)
+
+theorem spansA_insertionSort_mem (l : List Span) (y : Span) (h : y ∈ insertionSort l) : y ∈ l := by
+  unfold insertionSort at h
+  rcases spansA_insertionSort_foldl l [] y h with h1 | h1
+  · cases h1
+  · exact h1
+
+theorem spansA_labels_append {input : Str} {a : List Span} {b : Span} (ha : ∀ x ∈ a, SpanOK 0 input x)
+    (hb : SpanOK 0 input b) : LabelsOK input (a ++ [b]) := by
+  apply LabelsOK.mk
+  intro l hl
+  simp only [List.mem_append, List.mem_singleton] at hl
+  rcases hl with hl | rfl
+  · exact ha l hl
+  · exact hb
+
+theorem spansA_head_getD {input : Str} {a : List Span} (ha : ∀ x ∈ a, SpanOK 0 input x) :
+    SpanOK 0 input ((a[0]?).getD ⟨0, 0⟩) := by
+  cases a with
+  | nil => exact spansA_zero input
+  | cons x xs => exact ha x List.mem_cons_self
+
+theorem timeOverrideCheck_spOK (input : Str) (new : StdKey) : SpOK input (timeOverrideCheck (α := α) new) := by
+  unfold timeOverrideCheck
+  apply SpOK.bindGet
+  intro s0 hs0
+  have hlocs : ∀ keys : List StdKey, ∀ x ∈ insertionSort
+      (keys.filterMap (fun k => (s0.metaLocs.find? (fun p => p.1 == k)).map (·.2))), SpanOK 0 input x := by
+    intro keys x hx
+    have := spansA_insertionSort_mem _ _ hx
+    simp only [List.mem_filterMap, Option.map_eq_some_iff] at this
+    obtain ⟨k, _, p, hp, rfl⟩ := this
+    exact hs0.metaLocs p (List.mem_of_find?_eq_some hp)
+  have hm : ∀ keys : List StdKey, SpOK input (modify (fun s : Col α =>
+      { s with metaLocs := s.metaLocs.filter (fun p => !keys.contains p.1) }) : A α PUnit) := by
+    intro keys
+    refine SpOK.modify _ (fun s h => ⟨h.diags, h.locI, h.locC, ?_, h.oldStyle⟩)
+    intro p hp
+    exact h.metaLocs p (List.mem_filter.mp hp).1
+  sp_ok
+  all_goals first
+    | exact hm _
+    | exact spansA_labels_append (hlocs _) (spansA_head_getD (hlocs _))
+
+theorem metadataA_spOK (input : Str) (env : Env) (key value : Text)
+    (hev : EvSpansOK (α := α) 0 input (Ev.metadata key value)) : SpOK input (metadataA (α := α) env key value) := by
+  obtain ⟨hk, hv, hkv⟩ := hev
+  have hsp : SpanOK 0 input ⟨key.span.start, value.span.stop⟩ :=
+    ⟨hk.1.1, hv.1.2.1, by have := hk.1.2.2; have := hv.1.2.2; show key.span.start ≤ value.span.stop; omega⟩
+  have ht : ∀ k, SpOK input (timeOverrideCheck (α := α) k) := fun k => timeOverrideCheck_spOK input k
+  have hm : ∀ f : Col α → Col α, (∀ s, (f s).diags = s.diags ∧ (f s).locIngr = s.locIngr ∧ (f s).locCw = s.locCw ∧
+      (f s).metaLocs = s.metaLocs ∧ (f s).oldStyleUsed = s.oldStyleUsed) → SpOK input (modify f : A α PUnit) :=
+    fun f hf => SpOK.modify _ (fun s h => h.congr (hf s).1 (hf s).2.1 (hf s).2.2.1 (hf s).2.2.2.1 (hf s).2.2.2.2)
+  have hold : ∀ m : Col α → List (Str × Str), SpOK input (modify (fun s : Col α =>
+      { s with oldStyleUsed := s.oldStyleUsed ++ [⟨key.span.start, value.span.stop⟩], metaMap := m s }) : A α PUnit) := by
+    intro m
+    refine SpOK.modify _ (fun s h => ⟨h.diags, h.locI, h.locC, h.metaLocs, ?_⟩)
+    intro x hx
+    simp only [List.mem_append, List.mem_singleton] at hx
+    rcases hx with hx | rfl
+    · exact h.oldStyle x hx
+    · exact hsp
+  have hloc : ∀ sk : StdKey, SpOK input (modify (fun s : Col α => { s with metaLocs :=
+      (s.metaLocs.filter (fun p => p.1 != sk)) ++ [(sk, ⟨key.span.start, value.span.stop⟩)] }) : A α PUnit) := by
+    intro sk
+    refine SpOK.modify _ (fun s h => ⟨h.diags, h.locI, h.locC, ?_, h.oldStyle⟩)
+    intro x hx
+    simp only [List.mem_append, List.mem_singleton] at hx
+    rcases hx with hx | rfl
+    · exact h.metaLocs x (List.mem_filter.mp hx).1
+    · exact hsp
+  unfold metadataA
+  sp_ok
+  all_goals first
+    | exact ht _
+    | exact hold _
+    | exact hloc _
+    | exact LabelsOK.two hv.1 hk.1
+    | exact LabelsOK.one hk.1
+    | exact hm _ (fun s => ⟨rfl, rfl, rfl, rfl, rfl⟩)
+
+/-! ### the end of a block, every event -/
+
+theorem endBlock_spOK (input : Str) (kind : BlockKind) : SpOK input (endBlock (α := α) kind) := by
+  have hm : ∀ f : Col α → Col α, (∀ s, (f s).diags = s.diags ∧ (f s).locIngr = s.locIngr ∧ (f s).locCw = s.locCw ∧
+      (f s).metaLocs = s.metaLocs ∧ (f s).oldStyleUsed = s.oldStyleUsed) → SpOK input (modify f : A α PUnit) :=
+    fun f hf => SpOK.modify _ (fun s h => h.congr (hf s).1 (hf s).2.1 (hf s).2.2.1 (hf s).2.2.2.1 (hf s).2.2.2.2)
+  unfold endBlock endBlockContent pushContent
+  sp_ok
+  all_goals exact hm _ (fun s => ⟨rfl, rfl, rfl, rfl, rfl⟩)
+
+theorem processEvent_spOK (input : Str) (env : Env) (ev : Ev α) (hev : EvSpansOK 0 input ev) :
+    SpOK input (processEvent env input ev) := by
+  have hm : ∀ f : Col α → Col α, (∀ s, (f s).diags = s.diags ∧ (f s).locIngr = s.locIngr ∧ (f s).locCw = s.locCw ∧
+      (f s).metaLocs = s.metaLocs ∧ (f s).oldStyleUsed = s.oldStyleUsed) → SpOK input (modify f : A α PUnit) :=
+    fun f hf => SpOK.modify _ (fun s h => h.congr (hf s).1 (hf s).2.1 (hf s).2.2.1 (hf s).2.2.2.1 (hf s).2.2.2.2)
+  cases ev with
+  | frontMatter t => exact hm _ (fun s => ⟨rfl, rfl, rfl, rfl, rfl⟩)
+  | metadata k v => exact metadataA_spOK input env k v hev
+  | «section» name => exact hm _ (fun s => ⟨rfl, rfl, rfl, rfl, rfl⟩)
+  | start kind => exact hm _ (fun s => ⟨rfl, rfl, rfl, rfl, rfl⟩)
+  | stop kind => exact endBlock_spOK input kind
+  | text t => exact inStepText_spOK input env t hev
+  | ingredient i => exact inBlockComponent_spOK input env _ hev
+  | cookware c => exact inBlockComponent_spOK input env _ hev
+  | timer t => exact inBlockComponent_spOK input env _ hev
+  | error d => exact SpOK.pure _
+  | warning d => exact SpOK.modify _ (fun s h => h.pushDiag d hev)
+
+/-- every diagnostic `parse_events` reports — the analysis diagnostics of a complete run, or the
+    parse-stage diagnostics kept when a parse error cuts the run short — has valid labels; so has
+    every location recorded in the collector it returns -/
+theorem parseEventsLoop_spOK (input : Str) (env : Env) (evs : List (Ev α)) (s : Col α)
+    (hs : ColOK input s) (hev : ∀ ev ∈ evs, EvSpansOK 0 input ev) :
+    (∀ d ∈ (parseEventsLoop env input evs s).diags.toList, DiagOK 0 input d) ∧
+    (∀ c, (parseEventsLoop env input evs s).output = some c → ColOK input c) := by
+  induction evs generalizing s with
+  | nil =>
+    simp only [parseEventsLoop]
+    have h1 : ColOK input (if (!s.cur.isEmpty) = true then { s with sections := s.sections ++ [s.cur], cur := ⟨none, []⟩ } else s) := by
+      split
+      · exact hs.congr rfl rfl rfl rfl rfl
+      · exact hs
+    generalize (if (!s.cur.isEmpty) = true then { s with sections := s.sections ++ [s.cur], cur := ⟨none, []⟩ } else s) = s1 at h1
+    have h2 : ColOK input (if (!s1.oldStyleUsed.isEmpty) = true then
+        { s1 with diags := s1.diags.push ⟨.warning, .analysis, "meta-deprecated", s1.oldStyleUsed⟩ } else s1) := by
+      split
+      · exact h1.pushDiag _ h1.oldStyle
+      · exact h1
+    exact ⟨h2.diags, fun c hc => by cases hc; exact h2⟩
+  | cons ev rest ih =>
+    by_cases he : ∃ d0, ev = .error d0
+    · obtain ⟨d0, rfl⟩ := he
+      simp only [parseEventsLoop]
+      refine ⟨?_, fun c hc => by cases hc⟩
+      intro d hd
+      simp only [Array.toList_filter, List.mem_filter, Array.toList_append, Array.toList_push, List.mem_append,
+        List.mem_singleton, List.mem_filterMap] at hd
+      rcases hd.1 with (h | rfl) | ⟨e, he, hde⟩
+      · exact hs.diags d h
+      · exact hev _ List.mem_cons_self
+      · have := hev e (List.mem_cons_of_mem _ he)
+        cases e <;> simp only [isDiagEv, Option.some.injEq, reduceCtorEq] at hde <;> subst hde <;> exact this
+    · rw [parseEventsLoop_cons_nonerror env input ev rest s he]
+      exact ih _ ((processEvent_spOK input env ev (hev ev List.mem_cons_self)).out s hs)
+        (fun e he' => hev e (List.mem_cons_of_mem _ he'))
+
 end Cook
